@@ -112,7 +112,7 @@ theorem text_sampleLine_ok (s : Sample) (h : sampleOKText s = true) :
           e_lval_close, e_al_sp, run_text_ts, accepting]
 
 -- metadata lines ----------------------------------------------------------------------------------------------
-theorem classify_help (om : Bool) (n t : Str) (ht : '\n' ∉ t) :
+theorem classify_help (om : Bool) (n t : Str) (ht : helpText om t = true) :
     classify om ("# HELP ".toList ++ (escapeMetricName n ++ ' ' :: t)) = some .help := by
   unfold classify
   rw [stripPrefix_append]
@@ -161,9 +161,10 @@ theorem text_helpLine_ok (n doc : Str) (tr : Bool) :
   refine ⟨_, rfl, ?_⟩
   simp only [List.append_assoc, List.cons_append, List.nil_append]
   apply classify_help false n _
+  have := hscan_escapeHelp doc
   cases tr
-  · simpa using escapeHelp_noLF doc
-  · simpa [escapeHelpTrailing_eq] using escapeHelp_noLF doc
+  · simpa [helpText] using this
+  · simpa [helpText, escapeHelpTrailing_eq] using this
 
 theorem text_typeLine_ok (n t : Str) (ht : typesText.contains t = true) :
     LineOf false .type (TextExpo.typeLine n t) := by
